@@ -92,9 +92,12 @@ def build_harness():
         return rc == 0, out
 
 
-def build_app_test(app):
+def build_app_test(app, rewrite=None):
     """Build a test binary of a package-main app of /repo with /verif's overlay test injected
-    (go test -c -overlay; /repo is not touched, go.mod/go.sum are used through copies)."""
+    (go test -c -overlay; /repo is not touched, go.mod/go.sum are used through copies).
+    rewrite = (file name, old text, new text): that source file of the app is overlaid by a copy of the
+    working-tree file in which the one occurrence of old text is replaced (used to rename a function that
+    the injected test file then supplies itself)."""
     with Lock("gobuild"):
         mod = os.path.join(WORK, "modcopy")
         os.makedirs(mod, exist_ok=True)
@@ -102,8 +105,18 @@ def build_app_test(app):
         shutil.copyfile(os.path.join(REPO, "go.sum"), os.path.join(mod, "go.sum"))
         ov = os.path.join(WORK, "overlay_%s.json" % app)
         src = os.path.join(HARNESS, "overlay", app, "zz_verif_test.go")
+        repl = {os.path.join(REPO, "apps", app, "zz_verif_test.go"): src}
+        if rewrite:
+            fn, old, new = rewrite
+            text = open(os.path.join(REPO, "apps", app, fn)).read()
+            if text.count(old) != 1:
+                return False, "hook point %r occurs %d times in apps/%s/%s (expected once)" % (old, text.count(old), app, fn), None
+            cp = os.path.join(WORK, "overlay_%s_%s" % (app, fn))
+            with open(cp, "w") as f:
+                f.write(text.replace(old, new))
+            repl[os.path.join(REPO, "apps", app, fn)] = cp
         with open(ov, "w") as f:
-            json.dump({"Replace": {os.path.join(REPO, "apps", app, "zz_verif_test.go"): src}}, f)
+            json.dump({"Replace": repl}, f)
         out_bin = os.path.join(HARNESS, "bin", app + ".test")
         rc, out = sh(["go", "test", "-c", "-vet=off", "-modfile=" + os.path.join(mod, "go.mod"), "-overlay", ov,
                       "-o", out_bin, "./apps/" + app], cwd=REPO, env=GOENV, timeout=900)
